@@ -67,7 +67,7 @@ TEXT = {
     },
     "C16": {
         "level": "Theorems: for every GC rule tree (mutual induction) applyGC retains exactly the first keep(rule) cells of the descending column; max-age retains exactly ts >= now-age; union = shortest "
-                 "member prefix; unsupported rules and rule-less families untouched; emptied rows removed; other tables untouched; the pass collects the row as stored at visit time; the background loop's (non-forced) pass leaves a table alone unless its activity stamps say quiet, and quiet <-> written (or created) since the last pass and neither read nor written for quiesceNanos, stated over the table's history — so a request less than five minutes ago keeps the pass away. "
+                 "member prefix; unsupported rules and rule-less families untouched; emptied rows removed; other tables untouched; the pass collects the row as stored at visit time; the background loop's (non-forced) pass leaves a table alone unless its activity stamps say quiet, and quiet <-> written (or created) since the last pass and neither read nor written for quiesceNanos, stated over the table's history — so a request less than five minutes ago keeps the pass away; applyGC's own Go text (type switch over the rule oneof, cut-off arithmetic, the binary search sort.Search, slicing, the loop over a union's members) is regenerated into Lean on every run and proved equal to the Model's applyGC on every descending cell list, with the binary search's specification (first index of a monotone predicate) proved for the standard library's loop. "
                  "Tied to the code by forced passes with an injected clock at the boundaries, and by passes interleaved with client writes at every lock reversal (yield hook), and by the loop's own pass tried after controlled amounts of idle time (hooks Idle/TryGC) between valid and rejected requests.",
         "note": COMMON_NOTE + " The timer that decides when a pass runs is not modelled.",
         "technique": "Lean 4 proof (mutual structural induction over rule trees); differential correspondence incl. hook-driven interleavings",
@@ -130,7 +130,7 @@ TEXT = {
     "C07": {
         "level": "Theorems: the one-lock machine theorem instantiated with the sequential GCS Model (any number of requests on one object, any interleaving: state = serial run in critical-section "
                  "order, each request once); on that Model, of N writers conditioned on the same generation or on non-existence exactly the first in any serial order succeeds; a "
-                 "metageneration-conditioned patch applies only to a state it matched and a refused one changes nothing; a read returns one stored record. Tied to the code by running 2-3 real "
+                 "metageneration-conditioned patch applies only to a state it matched and a refused one changes nothing; a read returns one stored record; a compose, whose sources are read before its destination is validated and written, is the one-step compose of the Model whenever no source changed in between, which uploads, copies, patches and composes targeting other objects guarantee (and, stated so that it is not mistaken for covered, it is not one step next to a writer of a source: a concrete non-serialisable outcome, outside the property since the two requests target different objects). Tied to the code by running 2-3 real "
                  "concurrent HTTP requests (upload, patch, delete, compose, copy, metadata and media GETs, with generation / must-not-exist / metageneration conditions) on overlapping names through "
                  "every interleaving of the repository's yield points on both stores; each run must be explained by the Lean Model under some serial order compatible with real time (first "
                  "candidate: the order of lock releases). A tear scenario parks a file-store writer between its content write and its sidecar write while readers run.",
